@@ -453,10 +453,19 @@ func CondFacts(cond ssa.Value, pol bool) []Fact {
 		case *ssa.Call:
 			// a small boolean helper (e.g. equalsPtr(x, y)): the facts that hold whenever it returns pol,
 			// with its parameters replaced by the call's arguments
-			if hf := helperFacts(v, pol, depth); hf != nil {
+			if hf := helperFacts(v, 0, pol, depth); hf != nil && v.Call.Signature().Results().Len() == 1 {
 				out = append(out, Fact{Bool: c, Truth: pol})
 				out = append(out, hf...)
 				return
+			}
+		case *ssa.Extract:
+			// v, ok := helper(): the facts that hold whenever the helper returns ok == pol
+			if call, isCall := v.Tuple.(*ssa.Call); isCall {
+				if hf := helperFacts(call, v.Index, pol, depth); hf != nil {
+					out = append(out, Fact{Bool: c, Truth: pol})
+					out = append(out, hf...)
+					return
+				}
 			}
 		case *ssa.Phi:
 			// boolean phi from && / ||: edges that are the constant !pol cannot be the source
@@ -815,22 +824,22 @@ func Root(v ssa.Value) ssa.Value {
 
 // helperFacts returns the facts implied by "call returns pol" for a static callee with a body,
 // a single boolean result and at most 8 blocks, when exactly one return can produce pol.
-func helperFacts(call *ssa.Call, pol bool, depth int) []Fact {
+func helperFacts(call *ssa.Call, idx int, pol bool, depth int) []Fact {
 	if depth > 3 {
 		return nil
 	}
 	ci := Callee(call)
 	fn := ci.Static
-	if fn == nil || ci.Closure != nil || len(fn.Blocks) == 0 || len(fn.Blocks) > 8 || fn.Signature.Results().Len() != 1 {
+	if fn == nil || ci.Closure != nil || len(fn.Blocks) == 0 || len(fn.Blocks) > 8 || idx >= fn.Signature.Results().Len() {
 		return nil
 	}
-	if b, ok := fn.Signature.Results().At(0).Type().Underlying().(*types.Basic); !ok || b.Kind() != types.Bool {
+	if b, ok := fn.Signature.Results().At(idx).Type().Underlying().(*types.Basic); !ok || b.Kind() != types.Bool {
 		return nil
 	}
 	var cand []Fact
 	n := 0
 	for _, r := range Returns(fn) {
-		v := r.Results[0]
+		v := r.Results[idx]
 		if k, isConst := ConstBool(v); isConst {
 			if k != pol {
 				continue
